@@ -227,7 +227,7 @@ func contains(xs []string, x string) bool {
 func TestC28Soundness(t *testing.T) {
 	all := append(append(append([]string{}, safeKinds...), unsafeKinds...), extraKinds...)
 	all = append(all, safeKinds...) // accepted pairs are what the oracle applies to
-	pbt.Run(t, "linter-soundness", pbt.Scale(12000, 600000), func(rt *rapid.T) soundCase {
+	pbt.Run(t, "linter-soundness", pbt.Scale(12000, 300000), func(rt *rapid.T) soundCase {
 		return soundCase{evoCase: genEvo(rt, all, 3), ValueSeed: rapid.Uint64().Draw(rt, "vseed"), Unpinned: rapid.IntRange(0, 9).Draw(rt, "unpinned") == 0}
 	}, checkC28)
 }
